@@ -145,6 +145,14 @@ class MockCA:
                                           # of this order goes (more are made when it asks for more): with the same `chain_len`,
                                           # `chain_sep` and `chain_form` the body is byte-identical; a list: one per issuance
                                           # (`chain_sep` may be a list as well)
+            "leaf_sans": None,            # a protocol-faultless issuance whose end-entity certificate carries the CSR's key
+                                          # but a CHOSEN subjectAltName set (see `leaf_names`): "subset" (the last name
+                                          # left out), "cn-only" (the name left out is the subject CN), "no-san" (no
+                                          # extension at all, the first name as CN), "other-case" (the first DNS name in
+                                          # upper case), "extra" (one more name), "reordered"; a list: one per issuance
+            "valid_from_offset": None,    # notBefore of issued end-entity certificates, seconds relative to the CA's
+                                          # "now" (default: one hour ago); > 0 = a CA whose clock runs ahead of the
+                                          # client's / that does not back-date; a list: one per issuance
         }
         if opts:
             self.o.update(opts)
@@ -762,8 +770,12 @@ class MockCA:
             if od["polls_valid"] >= o["order_polls_before_valid"]:
                 nth = len(self.certs)
                 pick = lambda v: (v[min(nth, len(v) - 1)] if isinstance(v, list) else v)   # noqa: E731
-                r = self.h.call({"op": "issue", "csr_b64": od["csr"], "chain_len": pick(o["chain_len"]),
-                                 "valid_secs": o["valid_secs"], "pad": pick(o.get("chain_pad", 0))})
+                req = {"op": "issue", "csr_b64": od["csr"], "chain_len": pick(o["chain_len"]),
+                       "valid_secs": o["valid_secs"], "pad": pick(o.get("chain_pad", 0))}
+                req.update(self.leaf_names(od, pick(o.get("leaf_sans"))))
+                if pick(o.get("valid_from_offset")) is not None:
+                    req["not_before_offset"] = int(pick(o["valid_from_offset"]))
+                r = self.h.call(req)
                 if "pem" in r:
                     self.obj_ctr += 1
                     cid = str(self.obj_ctr)
@@ -782,6 +794,35 @@ class MockCA:
                     od["error"] = {"type": ERR + "badCSR", "detail": str(r.get("err"))}
             else:
                 od["polls_valid"] += 1
+
+    def leaf_names(self, od, mode):
+        """Option `leaf_sans`: the vhelper `issue` overrides (dns / ips / cn) for this order; logged as an `issued`
+        event so that a scenario can tell that the chosen names were really served."""
+        if not mode:
+            return {}
+        dns = [i["value"] for i in od["identifiers"] if i.get("type") == "dns"]
+        ips = [i["value"] for i in od["identifiers"] if i.get("type") == "ip"]
+        out = {"dns": list(dns), "ips": list(ips)}
+        if mode == "subset":
+            out["dns"] = dns[:-1]
+        elif mode == "cn-only":
+            out["dns"] = dns[:-1]
+            if dns:
+                out["cn"] = dns[-1][:64]
+        elif mode == "no-san":
+            out["dns"], out["ips"] = [], []
+            if dns:
+                out["cn"] = dns[0][:64]
+        elif mode == "other-case":
+            out["dns"] = [dns[0].upper()] + dns[1:] if dns else []
+        elif mode == "extra":
+            out["dns"] = dns + ["extra-name.verif.invalid"]
+        elif mode == "reordered":
+            out["dns"] = list(reversed(dns))
+        else:
+            raise ValueError("leaf_sans %r" % (mode,))
+        self.ev(kind="issued", leaf_sans=mode, dns=out["dns"], ips=out["ips"], cn=out.get("cn"))
+        return out
 
     def same_leaf(self, csr_b64, pem, mode):
         """Option `same_leaf`: the chain to serve for this order, given the chain just made for it."""
